@@ -51,6 +51,7 @@ theorem step_started (s : Sys) (op : Op) (h : ∀ n q c, op ≠ .cfg n q c) :
   | cfg n q c => exact absurd rfl (h n q c)
   | crash i => rfl
   | restart i => rfl
+  | repair l f nf => rfl
   | install i a ps acks => rfl
   | commit i e c k p acks => rfl
 
